@@ -198,6 +198,12 @@ func browserShaped(q Req) (origin, method string, names []string, pna, ok bool) 
 	if !isPreflightReq(q) || len(q.Header[hOrigin]) != 1 || len(q.Header[hACRM]) != 1 || len(q.Header[hACRH]) > 1 || len(q.Header[hACRPN]) > 1 {
 		return
 	}
+	// a key that is present with zero values does not exist on the wire: not something a browser sends
+	for _, k := range []string{hACRH, hACRPN} {
+		if v, present := q.Header[k]; present && len(v) == 0 {
+			return
+		}
+	}
 	origin, method = q.Header[hOrigin][0], q.Header[hACRM][0]
 	if !isToken(method) || fetchNormalizeMethod(method) != method {
 		return
